@@ -18,8 +18,12 @@ names).  It is shared with `11_chunksync.py` (which loads this file by path) for
 * calls to methods of the class (`self.m`, `cls.m`, `Class.m`, static / class methods, properties), nested functions,
   lambdas, `functools.partial` objects and module-level functions are INLINED with their arguments (a few levels deep);
   helper generators are run as coroutines of the `for` loop / `yield from` that consumes them;
-* pulls: `next(it, sentinel)`, `next(it)` / `it.__next__()` under `try … except StopIteration`, `for … in it`,
-  `for … in enumerate(it)`, `for … in iter(callable, sentinel)`.
+* pulls: `next(it, sentinel)`, `next(it)` / `it.__next__()` under `try … except StopIteration` or
+  `with suppress(StopIteration)`, `for … in it`, `for … in enumerate(it)`, `for … in iter(callable, sentinel)`;
+  comprehensions / generator expressions are run as the anonymous generators they are; `memoryview(piece)` is another
+  handle on the same piece; `operator.is_` / `is_not` / `iadd` mean what the operators mean.
+Not followed (=> not recognised): recursion, helper CLASSES holding the buffer, pieces kept in containers / attributes,
+`match`, `async`, `*args` carrying a piece.
 
 A READ of a piece = anything that looks at its bytes (`buffer += x`, `buffer.extend(x)`, `len(x)`, truthiness, slicing,
 `bytes(x)`, logging it, yielding it to the consumer …); aliasing, identity tests, `isinstance` are not reads.  A read of a
@@ -231,6 +235,7 @@ class Engine:
         self.steps = 0
         self.inlined = {}
         self.module_cache = {}
+        self.comp_cache = {}
 
     # ------------------------------------------------------------------------------------------- bookkeeping
     def tick(self, node=None):
@@ -640,7 +645,17 @@ class Engine:
                     if holds(v, ('piece', 'src', 'genobj')):
                         raise Unrecognised(f'piece / iterator stored in a container at line {node.lineno}')
             return [(s, UNKNOWN) for s, _ in outs]
-        if isinstance(node, (ast.ListComp, ast.SetComp, ast.DictComp, ast.GeneratorExp)):
+        if isinstance(node, (ast.ListComp, ast.SetComp, ast.GeneratorExp)):
+            # a comprehension = an anonymous generator `for … in …: if …: yield elt` (its variables are its own)
+            fn = self.comprehension_function(node)
+            outs = self.call_function(('func', fn, fr.fid), [], {}, st, fr, node)
+            if isinstance(node, ast.GeneratorExp):
+                return outs
+            res = []
+            for s, g in outs:
+                res += [(s2, UNKNOWN) for s2 in self.run_gen(g, s, lambda s3, y, _n=node: self.into_container(s3, y, _n), node)]
+            return res
+        if isinstance(node, ast.DictComp):
             for n in ast.walk(node):
                 if isinstance(n, ast.Name) and isinstance(n.ctx, ast.Load):
                     if holds(self.lookup(n.id, st, fr), ('piece', 'src', 'genobj')):
@@ -655,6 +670,38 @@ class Engine:
         if isinstance(node, (ast.Await,)):
             raise Unrecognised(f'expression {type(node).__name__} at line {node.lineno}')
         return self.opaque_children(node, st, fr)
+
+    def comprehension_function(self, node):
+        if node in self.comp_cache:
+            return self.comp_cache[node]
+        body = [ast.Expr(value=ast.Yield(value=node.elt))]
+        for gen in reversed(node.generators):
+            if gen.is_async:
+                raise Unrecognised(f'async comprehension at line {node.lineno}')
+            for test in reversed(gen.ifs):
+                body = [ast.If(test=test, body=body, orelse=[])]
+            body = [ast.For(target=gen.target, iter=gen.iter, body=body, orelse=[])]
+        fn = ast.FunctionDef(name='<comprehension>', args=ast.arguments(posonlyargs=[], args=[], vararg=None, kwonlyargs=[], kw_defaults=[],
+                                                                        kwarg=None, defaults=[]), body=body, decorator_list=[], returns=None)
+        ast.copy_location(fn, node)
+        for n in ast.walk(fn):
+            if not hasattr(n, 'lineno'):
+                ast.copy_location(n, node)
+        ast.fix_missing_locations(fn)
+        self.comp_cache[node] = fn
+        return fn
+
+    def into_container(self, st, v, node):
+        if holds(v, ('piece', 'src', 'genobj')):
+            raise Unrecognised(f'piece / iterator stored in a container at line {getattr(node, "lineno", "?")}')
+        return [st]
+
+    def drain_gen(self, g, st, node):
+        """a generator object handed to something that consumes it now and looks at every item (sum, any, b''.join, …)"""
+        def on_yield(s, y):
+            self.consume(y, s, node)
+            return [s]
+        return self.run_gen(g, st, on_yield, node)
 
     def opaque_children(self, node, st, fr):
         """evaluate the sub-expressions for their effects (reads), the result is unknown"""
@@ -830,6 +877,16 @@ class Engine:
                     if v[0] != 'piece':
                         self.consume(v, st, node)
                 return [(st, UNKNOWN)]
+            if name in COPY_CALLS | {'list', 'tuple', 'set', 'frozenset'} and any(v[0] == 'genobj' for v in args):
+                cur = [st]
+                for v in args + list(kwargs.values()):
+                    if v[0] == 'genobj':
+                        cur = [s2 for s in cur for s2 in (self.drain_gen(v, s, node) if name in COPY_CALLS else
+                                                          self.run_gen(v, s, lambda s3, y: self.into_container(s3, y, node), node))]
+                    else:
+                        for s in cur:
+                            self.consume(v, s, node)
+                return [(s, UNKNOWN) for s in cur]
             if name in COPY_CALLS:
                 for v in args + list(kwargs.values()):
                     if holds(v, ('src', 'genobj')) and v[0] != 'piece':
@@ -838,8 +895,8 @@ class Engine:
                 return [(st, UNKNOWN)]
             if name == 'partial' or name == 'functools.partial':
                 pass
-            if name == 'memoryview' and args and holds(args[0], ('piece',)):
-                raise Unrecognised(f'memoryview of a piece at line {node.lineno} (read later)')
+            if name == 'memoryview' and len(args) == 1 and not kwargs and args[0][0] == 'piece':
+                return [(st, args[0])]          # another handle on the same bytes: reading it is reading the piece, whenever that happens
         if t == 'sym' and fv[1].startswith('operator.') and not kwargs:
             op = fv[1].split('.', 1)[1]
             if op in ('is_', 'is_not', 'eq', 'ne') and len(args) == 2:
@@ -878,6 +935,8 @@ class Engine:
             for v in args + list(kwargs.values()):
                 self.consume(v, st, node)
             return [(st, UNKNOWN)]
+        if isinstance(node, ast.Call) and isinstance(node.func, ast.Attribute) and node.func.attr == 'join' and len(args) == 1 and args[0][0] == 'genobj':
+            return [(s, UNKNOWN) for s in self.drain_gen(args[0], st, node)]
         # --- logging: formats (reads) its arguments now
         if isinstance(node, ast.Call) and isinstance(node.func, ast.Attribute) and node.func.attr in LOG_METHODS and t in ('sym', 'attr'):
             for v in args + list(kwargs.values()):
@@ -925,7 +984,7 @@ class Engine:
         if new is None:
             new = self.frames[fid] = Frame(fid, fn, parent, cls)
         name = getattr(fn, 'name', '<lambda>')
-        if name not in self.inlined and not isinstance(fn, ast.Lambda):
+        if name not in self.inlined and not isinstance(fn, ast.Lambda) and name != '<comprehension>':
             self.inlined[name] = fn
         st = st.drop_frame(fid)
         # --- bind the parameters
@@ -1148,13 +1207,25 @@ class Engine:
             return self.for_stmt(s, st, fr)
         if isinstance(s, ast.Try):
             return self.try_stmt(s, st, fr)
+        if isinstance(s, ast.With) and len(s.items) == 1 and isinstance(s.items[0].context_expr, ast.Call) \
+                and self.ctx.unparse(s.items[0].context_expr.func).split('.')[-1] == 'suppress' \
+                and any(isinstance(n, ast.Name) and n.id in ('StopIteration', 'Exception', 'BaseException') for a in s.items[0].context_expr.args for n in ast.walk(a)):
+            # `with suppress(StopIteration): …` = `try: … except StopIteration: pass`
+            handler = ast.ExceptHandler(type=ast.Name(id='StopIteration', ctx=ast.Load()), name=None, body=[ast.Pass()])
+            t = ast.Try(body=s.body, handlers=[handler], orelse=[], finalbody=[])
+            ast.copy_location(t, s)
+            ast.fix_missing_locations(t)
+            return self.try_stmt(t, st, fr)
         if isinstance(s, ast.With):
             cur = [st]
             for it in s.items:
                 nxt = []
                 for c in cur:
-                    for s2, _ in self.ev(it.context_expr, c, fr, False):
-                        nxt.append(self.bind(it.optional_vars, UNKNOWN, s2, fr) if it.optional_vars is not None else s2)
+                    for s2, v in self.ev(it.context_expr, c, fr, True):
+                        if v[0] != 'piece':
+                            self.consume(v, s2, s)
+                            v = UNKNOWN
+                        nxt.append(self.bind(it.optional_vars, v, s2, fr) if it.optional_vars is not None else s2)
                 cur = nxt
             out = []
             for c in cur:
